@@ -19,7 +19,7 @@ type Scalar struct{ T *Term }
 // SliceV: []byte and string. Content lives in byte objects: BH[Base][Off+k]. Cap==nil for strings.
 type SliceV struct {
 	Base, Off, Len, Cap *Term
-	Raw                 bool // view onto raw memory M (Base==0, Off = absolute address)
+	Raw                 bool  // view onto raw memory M (Base==0, Off = absolute address)
 	Arr                 *Term // detached content (ghost byte strings recorded in traces); overrides BH[Base]
 }
 
@@ -74,17 +74,17 @@ type PtrV struct {
 // ---------------- state ----------------
 
 type State struct {
-	PC     *Term
-	Heap   map[string]*Term // typed heap leaf arrays by key
-	M      *Term            // raw bytes
-	SB, SO *Term            // shadow of slice headers stored in raw memory (base, off)
-	BH     *Term            // byte objects
-	BA     *Term            // allocated byte-object bases (Array BV64 Bool)
-	RA     *Term            // allocated raw addresses
-	Locals map[*ssa.Alloc]Val
-	Ghost  map[string]*Term
-	MapVer map[string]*Term // map contents version per map type key
-	dead   bool
+	PC       *Term
+	Heap     map[string]*Term // typed heap leaf arrays by key
+	M        *Term            // raw bytes
+	SB, SO   *Term            // shadow of slice headers stored in raw memory (base, off)
+	BH       *Term            // byte objects
+	BA       *Term            // allocated byte-object bases (Array BV64 Bool)
+	RA       *Term            // allocated raw addresses
+	Locals   map[*ssa.Alloc]Val
+	Ghost    map[string]*Term
+	MapVer   map[string]*Term // map contents version per map type key
+	dead     bool
 	havocAll bool
 }
 
@@ -319,7 +319,7 @@ func (e *Engine) zeroVal(t types.Type) Val {
 type unsupportedErr struct{ msg string }
 
 func (u unsupportedErr) Error() string { return "unsupported: " + u.msg }
-func unsupported(msg string) error    { return unsupportedErr{msg} }
+func unsupported(msg string) error     { return unsupportedErr{msg} }
 
 // leaves flattens a Val into named leaf terms (in a stable order).
 func leaves(v Val, prefix string, out *[]leaf) {
@@ -645,7 +645,6 @@ func describeVal(tb *TB, v Val) string {
 	}
 	return strings.Join(parts, " ")
 }
-
 
 // gaddr: the address of a package-level variable (an uninterpreted constant per variable; distinct variables have
 // distinct addresses).
